@@ -25,6 +25,8 @@ GLOBAL_ASSUMPTIONS = [
     "dict and set keys are compared by value identity: hashing, __hash__/__eq__ of key objects and unhashable keys are not modelled",
     "threads are not modelled: every function is verified as sequential code; recursion goes through the function's own contract",
     "a comprehension whose element expression constructs an object or has a fresh result is over-approximated (length/domain, class of the new objects; values unknown)",
+    "module-level tables and constants built from literals, frozenset/tuple/namedtuple or a repo class constructor are not mutated at run time; "
+    "functions with unmodelled decorators, module-level objects built by external constructors and class constants overridden on instances are refused (undecided), not assumed",
     "obligations get instances of their own assumptions added before they are sent to the solver (DESIGN.md 11.1): consequences, not new assumptions",
 ]
 
